@@ -63,7 +63,15 @@ def fresh_dict(st, dom, mp):
     d = st.alloc('dict'); st.set_dcontents(d, dom, z3.Map(CP, mp)); return d
 
 
+DECODE_DEFAULTS = {'keys': False, 'reset': True, 'safe': False}
+
+
 def decode(ex, st, pos, kw, node, star, dstar):
+    if len(pos) > 1 or any(k not in DECODE_DEFAULTS or not st.entails(kw[k] == B(DECODE_DEFAULTS[k])) for k in kw):
+        # A1 is the pair encode(v) / decode(text) with default options on both sides; a decode option the encoder did not use (keys=True on
+        # text written with keys=False rewrites every key that starts with json://) gives no round-trip guarantee
+        lib.used('A1 (negative): decode with options other than the defaults gives no round-trip guarantee')
+        s2 = st.copy(); return [(st, ('val', fresh('decoded_with_options'))), (s2, ('exc', s2.sym_exc(ordinary=True, label='exc_decode')))]
     v = pos[0]
     e = z3.If(Val.is_s(v), Val.sv(v), Val.yv(v))
     outs = []
